@@ -243,9 +243,223 @@ func runC09(c *eng.Ctx) {
 				return ok && fieldIs(fa, segF)
 			})
 			c.Check(g, "epoch trim uses the swapped list", c.Pos(ce[0].(ssa.Instruction)), "l.segments is replaced before ClearEarliest reads it", "ClearEarliest runs before the segment list was swapped (path "+w.String()+")")
+			// retention-only cleans (no compaction cache) must take the trim branch, compaction must take the replace branch
+			noCache := eng.CmpEdges(fn, eng.Call(1, cl+"commitLog.clean"), eng.NilConst, eng.EQ)
+			hasCache := eng.CmpEdges(fn, eng.Call(1, cl+"commitLog.clean"), eng.NilConst, eng.NE)
+			g1, w1 := eng.GuardedBy(fn, ce[0].(ssa.Instruction), noCache)
+			okBr := g1 && len(noCache) > 0
+			wit := w1
+			for _, rp := range eng.CallsIn(fn, cl+"leaderEpochCache.Replace") {
+				g2, w2 := eng.GuardedBy(fn, rp.(ssa.Instruction), hasCache)
+				if !g2 {
+					okBr, wit = false, w2
+				}
+			}
+			c.Check(okBr, "epoch trim exactly when no compaction cache was built", c.Pos(ce[0].(ssa.Instruction)), "ClearEarliest on epochCache == nil, Replace on epochCache != nil", "after a retention-only clean the leader epoch cache is not trimmed to the first retained segment (or a nil cache replaces it) (path "+wit.String()+")")
 		}
 	}
-	c.Floor(2)
+	c.Floor(3)
+
+	// ---- R09.7 a stop really deletes, and nothing else does
+	c.Rule("R09.7", "K1")
+	delAppends := func(fn *ssa.Function) []ssa.Instruction {
+		var out []ssa.Instruction
+		eng.Instrs(fn, func(in ssa.Instruction) {
+			if call, ok := in.(*ssa.Call); ok {
+				if b, ok := call.Call.Value.(*ssa.Builtin); ok && b.Name() == "append" && flowsToDelete(call) {
+					out = append(out, in)
+				}
+			}
+		})
+		return out
+	}
+	okReturn := func(in ssa.Instruction) bool {
+		r, ok := in.(*ssa.Return)
+		return ok && len(r.Results) == 2 && eng.NilConst(r.Results[1])
+	}
+	isDelete := eng.IsCallTo(cl + "deleteCleaner.deleteSegments")
+	for _, ps := range passes {
+		fn := c.Fn(ps.key)
+		if fn == nil {
+			continue
+		}
+		// every comparison of the walk counter with -1 is exactly `> -1`: `>=` walks to index -1, `> 0` never looks at segment 0
+		nCmp, okCmp := allCmpExact(fn, eng.AnyV, eng.IntConst(-1), eng.GT)
+		c.Check(okCmp && nCmp >= 3, fn.Name()+" walks down to index 0 and not further", p.Pos(fn.Pos()), "every test of the counter is `i > -1` (walk, guard, delete loop)", "a loop or guard of "+fn.Name()+" does not test the counter with exactly `> -1`: the oldest segment is skipped or index -1 is read")
+		over := eng.CmpEdges(fn, eng.AnyV, eng.LoadNamed(ps.limit, nil), eng.GT)
+		below := eng.CmpEdges(fn, eng.AnyV, eng.IntConst(-1), eng.LE)
+		// After the stop the counter is >= 0, so the `<= -1` edges are infeasible until the counter is decremented: on the remaining
+		// paths the pass must not return success without deleting, and the delete list must not stay empty.
+		q := &eng.PathQuery{Fn: fn, FromEdges: over, Target: okReturn, CutInstr: isDelete, CutEdges: below}
+		w := q.Find()
+		c.Check(w == nil && len(over) > 0, fn.Name()+" deletes whenever it stopped", p.Pos(fn.Pos()), "from total > limit every path to a successful return calls deleteSegments", "after the walk stopped on total > limit, "+fn.Name()+" can return successfully without calling deleteSegments (path "+w.String()+"): the list no longer contains the older segments but their files stay")
+		apps := delAppends(fn)
+		reach := false
+		for _, a := range apps {
+			a := a
+			q := &eng.PathQuery{Fn: fn, FromEdges: over, Target: func(in ssa.Instruction) bool { return in == a }, CutInstr: isDelete, CutEdges: below}
+			if q.Find() != nil {
+				reach = true
+			}
+		}
+		c.Check(reach, fn.Name()+" collects the segments below the stop", p.Pos(fn.Pos()), "the delete list is filled on the i > -1 edge after the stop", "after the walk stopped, "+fn.Name()+" never adds a segment to the delete list before calling deleteSegments")
+	}
+	if fn := c.Fn(cl + "(*deleteCleaner).applyAgeLimit"); fn != nil {
+		apps := delAppends(fn)
+		// the age pass stops at the first segment it keeps: once idx is set, nothing more becomes a delete candidate
+		var idxStores []ssa.Instruction
+		eng.Instrs(fn, func(in ssa.Instruction) {
+			if phi, ok := in.(*ssa.Phi); ok && phi.Comment == "idx" {
+				_ = phi
+			}
+		})
+		old := eng.CmpEdges(fn, eng.Call(-1, cl+"segment.LastWriteTime"), eng.Call(-1, "var:"+cl+"computeTTL"), eng.LT)
+		keep := eng.CmpEdges(fn, eng.Call(-1, cl+"segment.LastWriteTime"), eng.Call(-1, "var:"+cl+"computeTTL"), eng.GE)
+		keep = append(keep, eng.CmpEdges(fn, eng.AnyV, lastIdx, eng.EQ)...)
+		_ = idxStores
+		contiguous := len(keep) > 0 && len(apps) > 0
+		var wit *eng.Witness
+		for _, a := range apps {
+			a := a
+			q := &eng.PathQuery{Fn: fn, FromEdges: keep, Target: func(in ssa.Instruction) bool { return in == a }}
+			if w := q.Find(); w != nil {
+				contiguous, wit = false, w
+			}
+		}
+		c.Check(contiguous, "age pass stops at the first segment it keeps", p.Pos(fn.Pos()), "no delete candidate is collected after a segment was kept", "after keeping a segment the age pass can still collect a later one (path "+wit.String()+"): the survivors are not a contiguous suffix")
+		empty := eng.CmpEdges(fn, eng.Len(eng.AnyV), eng.IntConst(0), eng.LE)
+		q := &eng.PathQuery{Fn: fn, FromAfter: apps, Target: okReturn, CutInstr: isDelete, CutEdges: empty}
+		w := q.Find()
+		c.Check(w == nil && len(apps) > 0 && len(old) > 0, "age pass deletes what it collected", p.Pos(fn.Pos()), "from a collected candidate every path to a successful return calls deleteSegments", "applyAgeLimit can return successfully without deleting the segments it dropped from the list (path "+w.String()+")")
+	}
+	if fn := c.Fn(cl + "(*deleteCleaner).Clean"); fn != nil {
+		// the early exit is taken only for an empty list or when no limit is configured
+		none := eng.CmpEdges(fn, eng.Len(eng.Param("segments")), eng.IntConst(0), eng.EQ)
+		none = append(none, eng.BoolEdges(fn, eng.Call(-1, cl+"deleteCleaner.noRetentionLimits"), true)...)
+		n := 0
+		for _, r := range eng.Returns(fn) {
+			if rv := eng.RetVals(r); len(rv) == 2 && eng.Param("segments")(rv[0]) {
+				n++
+				g, w := eng.GuardedBy(fn, r, none)
+				c.Check(g && len(none) >= 2, "retention is skipped only without segments or limits", c.Pos(r), "the unchanged input is returned only on len(segments) == 0 or noRetentionLimits()", "deleteCleaner.Clean can return its input unchanged although segments and limits exist (path "+w.String()+")")
+			}
+		}
+		if n == 0 {
+			c.OK("retention is skipped only without segments or limits", p.Pos(fn.Pos()), "the input is never returned unchanged")
+		}
+	}
+	if fn := c.FnQuiet(cl + "(*deleteCleaner).noRetentionLimits"); fn != nil {
+		// true is returned only when all three limits are zero
+		c.Check(returnsTrueOnlyWhenAllZero(fn), "no-limits test covers all three limits", p.Pos(fn.Pos()), "Bytes == 0 && Messages == 0 && Age == 0", "noRetentionLimits can report true although a limit is configured: that limit is never enforced")
+	}
+	// segments rolled while the cleaner ran are kept
+	if fn := c.Fn(cl + "(*commitLog).Clean"); fn != nil {
+		segF := p.Field(clPkg, "commitLog", "segments")
+		rb := eng.CallsIn(fn, cl+"commitLog.rebaseSegments")
+		more := eng.CmpEdges(fn, eng.Len(eng.Load(segF, nil)), eng.Len(eng.Load(segF, nil)), eng.GT)
+		okRb := len(rb) == 1 && len(more) > 0 && exactRel(fn, eng.Len(eng.Load(segF, nil)), eng.Len(eng.Load(segF, nil)), eng.GT)
+		pos := p.Pos(fn.Pos())
+		if len(rb) == 1 {
+			pos = c.Pos(rb[0].(ssa.Instruction))
+			g, _ := eng.GuardedBy(fn, rb[0].(ssa.Instruction), more)
+			sl, isSl := rb[0].Common().Args[1].(*ssa.Slice)
+			okRb = okRb && g && isSl && sl.High == nil && sl.Low != nil && eng.Len(eng.Load(segF, nil))(sl.Low) && eng.Load(segF, nil)(sl.X)
+			// the swapped-in list is the rebased one on that path
+			okStore := false
+			for _, st := range eng.FieldStores(fn, func(fa *ssa.FieldAddr) bool { return fieldIs(fa, segF) }) {
+				if phi, ok := st.Val.(*ssa.Phi); ok {
+					for _, e := range phi.Edges {
+						if e == rb[0].Value() {
+							okStore = true
+						}
+					}
+				} else if st.Val == rb[0].Value() {
+					okStore = true
+				}
+			}
+			okRb = okRb && okStore
+		}
+		c.Check(okRb, "segments rolled during a clean survive the swap", pos, "l.segments = rebaseSegments(new[len(old):], cleaned) exactly when len(new) > len(old)", "commitLog.Clean swaps in the cleaned list without re-attaching (exactly) the segments that were rolled while the cleaner ran: a segment appended during a clean is lost or duplicated")
+	}
+	c.Floor(10)
+}
+
+// allCmpExact counts the If conditions in fn that compare a with b and reports whether every one of them uses exactly rel
+// (or its complement, i.e. the same boundary).
+func allCmpExact(fn *ssa.Function, a, b eng.VM, rel eng.Rel) (int, bool) {
+	n, ok := 0, true
+	for _, r := range eng.CmpRels(fn, a, b) {
+		if r == rel || r == rel.Neg() {
+			n++
+		} else {
+			ok = false
+		}
+	}
+	return n, ok
+}
+
+// returnsTrueOnlyWhenAllZero: every path on which fn returns true (or a conjunction that can be true) crosses the == 0 edge of
+// each limit. fn is a short predicate; its result is a phi of constants and comparisons.
+func returnsTrueOnlyWhenAllZero(fn *ssa.Function) bool {
+	fields := []string{"Bytes", "Messages", "Age"}
+	for _, r := range eng.Returns(fn) {
+		if len(r.Results) != 1 {
+			return false
+		}
+		// which comparisons are decided by branching, which one is the returned value itself
+		covered := map[string]bool{}
+		var visit func(v ssa.Value, depth int) bool
+		visit = func(v ssa.Value, depth int) bool {
+			if depth > 4 {
+				return false
+			}
+			switch x := v.(type) {
+			case *ssa.Phi:
+				for i, e := range x.Edges {
+					if k, ok := e.(*ssa.Const); ok && k.Value != nil && k.Value.String() == "false" {
+						continue
+					}
+					// the value arriving over this edge may be true: the predecessor must be behind the == 0 edges of the
+					// other fields and e must be the remaining comparison
+					pred := x.Block().Preds[i]
+					for _, f := range fields {
+						z := eng.CmpEdges(fn, eng.LoadNamed(f, nil), eng.IntConst(0), eng.EQ)
+						if len(pred.Instrs) > 0 {
+							if g, _ := eng.GuardedBy(fn, pred.Instrs[len(pred.Instrs)-1], z); g && len(z) > 0 {
+								covered[f] = true
+							}
+						}
+					}
+					if !visit(e, depth+1) {
+						return false
+					}
+				}
+				return true
+			case *ssa.BinOp:
+				if x.Op == token.EQL && eng.IntConst(0)(x.Y) {
+					for _, f := range fields {
+						if eng.LoadNamed(f, nil)(x.X) {
+							covered[f] = true
+							return true
+						}
+					}
+				}
+				return false
+			case *ssa.Const:
+				return x.Value != nil && x.Value.String() == "false"
+			}
+			return false
+		}
+		if !visit(r.Results[0], 0) {
+			return false
+		}
+		for _, f := range fields {
+			if !covered[f] {
+				return false
+			}
+		}
+	}
+	return true
 }
 
 func flowsToDelete(call *ssa.Call) bool {
